@@ -24,11 +24,23 @@ Witness(N, w, kw, F, q) ==
                [a |-> [a |-> "subscribe", c |-> w, id |-> 1, req |-> [i \in 1..1 |-> [f |-> "#", q |-> q]]],
                 out |-> Grp(O0, w, {Suback(1, <<q>>)}), closed |-> [c \in Conns |-> FALSE], nsess |-> 1] >>
 
+\* an initial state with c1 and c2 already connected (clean sessions, client ids k1, k2); preamble replayed first
+BothUp(N) ==
+  /\ conn = [c \in Conns |-> [st |-> "up", cid |-> KOf(c), clean |-> TRUE, will |-> NoWill]]
+  /\ sess = [k \in Cids |-> NewSess]
+  /\ subs = {} /\ ret = [t \in N |-> NoRet]
+  /\ out = O0 /\ closed = [c \in Conns |-> FALSE]
+  /\ last = [a |-> "init"] /\ prev = <<>> /\ steps = 0
+  /\ hist = << [a |-> [a |-> "connect", c |-> c1, k |-> k1, clean |-> TRUE, will |-> [NoWill EXCEPT !.t = "-"]],
+                out |-> Grp(O0, c1, {Connack(FALSE, 0)}), closed |-> [c \in Conns |-> FALSE], nsess |-> 1],
+               [a |-> [a |-> "connect", c |-> c2, k |-> k2, clean |-> TRUE, will |-> [NoWill EXCEPT !.t = "-"]],
+                out |-> Grp(O0, c2, {Connack(FALSE, 0)}), closed |-> [c \in Conns |-> FALSE], nsess |-> 2] >>
+
 -----------------------------------------------------------------------------
 (* C01 routing: two network clients + one in-process subscriber, clean sessions *)
 RFilters == {<<"a","b">>, <<"a","+">>, <<"a","#">>, <<"#">>, <<"+","b">>}
 RNames == {<<"a","b">>, <<"a">>, <<"a","b","c">>, <<"c">>}
-RoutingInit == Free(RNames)
+RoutingInit == BothUp(RNames)
 RoutingNext == steps < MaxSteps /\
   \/ \E c \in {c1, c2} : Connect(c, KOf(c), TRUE, NoWill)
   \/ \E c \in {c1, c2}, f \in RFilters, q \in 0..2 : Subscribe(c, 1, << <<f, q>> >>)
@@ -64,7 +76,7 @@ SubReqs == { << <<FV1, 1>> >>, << <<FV1, 0>>, <<FV2, 2>> >>, << <<FV3, 2>>, <<FV
              << <<FV1, 0>>, <<FV2, 1>>, <<FV3, 2>>, <<FV4, 0>>, <<FV5, 1>> >>,
              << <<FV1, 2>>, <<FV2, 2>>, <<FV3, 2>>, <<FV4, 2>>, <<FV5, 2>>, <<FI3, 1>>, <<FV1, 0>>, <<FV2, 0>>, <<FV3, 1>> >> }
 UnsubReqs == { <<FV1>>, <<FV1, FV2>>, <<FV3, FV3>>, <<FV1, FV2, FV3, FV4, FV5>>, <<FV5, FV4, FV3, FV2, FV1, FI1, FV1, FV2, FV3>>, <<FI2>> }
-SubsInit == Free(SNames)
+SubsInit == BothUp(SNames)
 SubsNext == steps < MaxSteps /\
   \/ \E c \in {c1, c2} : Connect(c, KOf(c), TRUE, NoWill)
   \/ \E r \in SubReqs, id \in {1, 258} : Subscribe(c1, id, r)
@@ -76,7 +88,7 @@ SubsSpec == SubsInit /\ [][SubsNext]_vars
    payloads, clearing, QoS downgrade, unrelated big traffic                                *)
 TNames == {<<"a">>, <<"a","b">>, <<"c">>}
 TFilters == {<<"a">>, <<"a","+">>, <<"#">>, <<"a","b">>}
-RetainInit == Free(TNames)
+RetainInit == BothUp(TNames)
 RetainNext == steps < MaxSteps /\
   \/ \E c \in {c1, c2} : Connect(c, KOf(c), TRUE, NoWill)
   \/ \E t \in TNames, q \in 0..1, pl \in {"x", "B", ""} : Publish(c1, t, q, TRUE, pl, 4, FALSE)
@@ -113,6 +125,16 @@ SessNext == steps < MaxSteps /\
   \/ \E c \in {c1, c2}, how \in {"disconnect", "cut"} : End(c, how)
   \/ \E t \in ENames : ApiPublish(t, 1, FALSE, "x")
 SessSpec == SessInit /\ [][SessNext]_vars
+
+\* all paths on one slot and one client id: the implementation keeps session state the specification
+\* does not distinguish (e.g. a filter subscribed twice), so one witness per transition is not enough
+Sess1Next == steps < MaxSteps /\
+  \/ \E cl \in BOOLEAN : Connect(c1, k1, cl, NoWill)
+  \/ \E q \in {0, 1} : Subscribe(c1, 1, << <<<<"a">>, q>> >>)
+  \/ Unsubscribe(c1, 2, << <<"a">> >>)
+  \/ \E how \in {"disconnect", "cut"} : End(c1, how)
+  \/ ApiPublish(<<"a">>, 1, FALSE, "x")
+Sess1Spec == SessInit /\ [][Sess1Next]_vars
 
 (* C11 first packets: every way of being refused, followed by packets on the refused connection;
    witness c2 subscribed to '#', afterwards a probe of the retained store                  *)
